@@ -84,13 +84,21 @@ def build(case):
     asn_name = names[case["asn"] % len(names)]
     asn = con.assertions[asn_name]
     con.assertions = {asn_name: asn}        # the one assertion under test (set_p_values loops over con.assertions)
+    # how boolean flags handed to the CVR constructor are materialised: Python bool, numpy bool (a mask of unfound
+    # cards), or int 0/1 (a flag column read from a file): all are legitimate truthy / falsy flags
+    import numpy as np
+    ft = case.get("flag_type", "bool")
+
+    def flag(v):
+        v = bool(v)
+        return v if ft == "bool" else (np.bool_(v) if ft == "np" else int(v))
     # CVRs: half through from_dict, the explicit phantoms through the constructor
     cvrs = []
     for i, c in enumerate(case["cvrs"]):
         votes = {kk: dict(v) for kk, v in c["votes"].items()}
         if c.get("ctor"):
-            cvrs.append(CVR(id=c["id"], votes=votes, phantom=bool(c.get("phantom", False)),
-                            tally_pool=c.get("tally_pool"), pool=bool(c.get("pool", False))))
+            cvrs.append(CVR(id=c["id"], votes=votes, phantom=flag(c.get("phantom", False)),
+                            tally_pool=c.get("tally_pool"), pool=flag(c.get("pool", False))))
         else:
             dd = {"id": c["id"], "votes": votes}
             for f in ("phantom", "tally_pool", "pool"):
@@ -115,9 +123,9 @@ def build(case):
     for i, c in enumerate(cvrs):
         if i < len(case["mvrs"]):
             m = case["mvrs"][i]
-            mvrs.append(CVR(id=c.id, votes={kk: dict(v) for kk, v in m["votes"].items()}, phantom=bool(m.get("phantom", False))))
+            mvrs.append(CVR(id=c.id, votes={kk: dict(v) for kk, v in m["votes"].items()}, phantom=flag(m.get("phantom", False))))
         else:
-            mvrs.append(CVR(id=c.id, votes={}, phantom=True))
+            mvrs.append(CVR(id=c.id, votes={}, phantom=flag(True)))
     A = asn.assorter.assort
 
     def safe_a(r):
@@ -197,7 +205,8 @@ def impl(case):
     # 3. per pair
     pairs = []
     for m, c in zip(mvrs, cvrs):
-        mph = CVR(id=m.id, votes=m.votes, phantom=True)
+        _ft = case.get("flag_type", "bool")
+        mph = CVR(id=m.id, votes=m.votes, phantom=(True if _ft == "bool" else np.bool_(True) if _ft == "np" else 1))
         pairs.append({
             "o": _call(lambda: {"st": "ok", "v": _num(asn.assorter.overstatement(m, c, us))}),
             "b": _call(lambda: {"st": "ok", "v": _num(asn.overstatement_assorter(m, c, use_style=us))}),
@@ -706,6 +715,8 @@ def gen_one(rng):
             case["irv_assertion"] = {"winner": w, "loser": l, "assertion_type": "IRV_ELIMINATION", "already_eliminated": elim}
         votes = lambda: _irv_votes(rng, IRV_CANDS)
     case["asn"] = rng.randint(0, 3)
+    # type of the boolean flags handed to the CVR constructor (phantom / pool): bool, numpy bool, int
+    case["flag_type"] = rng.choice(["bool", "bool", "np", "int"])
     case["direct"] = scf != "IRV" and rng.chance(0.4)     # assertion built by the direct constructor call
     case["use_style"] = rng.chance(0.6)
     r = rng.random()
